@@ -1185,6 +1185,32 @@ def cli_case(xvc_bin, model_bin, entries, globals_txt, repeats=3, track_dir=None
                 obs = sorted(q for q in cand if got[q] != "IGNORE")
                 fails.append(("xvc check-ignore disagrees with the ignore files above the path", {"paths": {q: got[q] for q in wrong}},
                               [sorted((ref - set(cand)) | set(obs))]))
+        # explicit file targets: a file below an ignored directory, or inside a nested .git, stays hidden
+        # also when it is named on the command line ("an ignored directory hides everything beneath it",
+        # ".xvc and .git are never traversed")
+        files_all = [e[1] for e in tree if e[0] == "f" and e[1].rsplit("/", 1)[-1] != IGN]
+        hidden = [q for q in files_all if q not in ref and "/" in q and parent_of(q) not in ref][:3]
+        # (a `!` line can re-include .git: the open finding P35; such trees do not get the .git target)
+        has_white = any(l.lstrip().startswith("!") for e in tree if e[0] == "f" and e[1].rsplit("/", 1)[-1] == IGN for l in e[2].split("\n"))
+        host = None if has_white else next((e[1] for e in tree if e[0] == "d" and e[1] in ref), None)
+        if host:
+            repo.write(host + "/.git/config", "[core]\n")
+            hidden.append(host + "/.git/config")
+        if hidden:
+            r = repo.xvc("file", "track", *hidden)
+            n += 1
+            r2 = repo.xvc("file", "list", "--format", "{{cst}} {{name}}", "--no-summary", "--show-dot-files")
+            n += 1
+            tracked = sorted(l.split(" ", 1)[1].strip() for l in r2.out.split("\n") if l.strip() and not l.startswith("X") and " " in l.strip())
+            leaked = sorted(q for q in hidden if q in tracked)
+            if leaked:
+                fails.append(("xvc file track <explicit paths> recorded files below an ignored directory or inside .git: %s" % ", ".join(leaked),
+                              {"targets": hidden, "tracked": leaked}, [sorted(ref | set(leaked))]))
+            if host:
+                try:
+                    os.unlink(repo.path(host + "/.git/config")); os.rmdir(repo.path(host + "/.git"))
+                except OSError:
+                    pass
         if track_dir:
             r = repo.xvc("file", "track", track_dir + "/")
             n += 1
